@@ -88,7 +88,7 @@ impl EightChar {
   }
 
   pub fn get_body_sign(&self) -> SixtyCycle {
-    let offset: isize = (self.month.get_earth_branch().get_index() as isize + self.hour.get_earth_branch().get_index() as isize - 1) % 12;
+    let offset: isize = (self.month.get_earth_branch().get_index() as isize + self.hour.get_earth_branch().get_index() as isize + 11) % 12;
     SixtyCycle::from_name(format!("{}{}", HeavenStem::from_index(((self.year.get_heaven_stem().get_index() as isize) + 1) * 2 + offset).get_name(), EarthBranch::from_index(2 + offset).get_name()).as_str())
   }
 
